@@ -208,6 +208,9 @@ func runFrame(fr *frame) {
 		if _, ok := r.(crashPanic); ok {
 			panic(r) // a process kill: no deferred call runs
 		}
+		if _, ok := r.(killedPanic); ok {
+			panic(r) // the path is over: this goroutine is being torn down
+		}
 		if re, ok := r.(runtime.Error); ok {
 			// a Go runtime error inside the interpreter stands for the target's run-time panic,
 			// except for interpreter bugs, which we try to tell apart by the message
@@ -307,6 +310,7 @@ type Shared struct {
 	Warnings      []string
 	fnSeen        sync.Map
 	fnInfos       sync.Map
+	harnessFn     sync.Map
 	Thorough      bool
 }
 
